@@ -14,7 +14,8 @@ if [ -n "$VERIF_REPO" ] && [ "$VERIF_REPO" != "/repo" ]; then
   # trial runs against another checkout: link the driver against it too
   sed "s#=> /repo#=> $VERIF_REPO#" go.mod > .cache/bin/go.$$.mod
   cp go.sum .cache/bin/go.$$.sum
-  modflag="-modfile=.cache/bin/go.$$.mod"
+  modflag="-modfile=$VERIF_DIR/.cache/bin/go.$$.mod"
+  export VERIF_MODFLAG="$modflag"
   trap 'rm -f "$bin" .cache/bin/go.$$.mod .cache/bin/go.$$.sum' EXIT INT TERM
 fi
 if ! go build $modflag -tags verif -o "$bin" ./cmd/vcheck 2>.cache/bin/build.$$.log; then
